@@ -598,6 +598,7 @@ pub fn history(depth: usize) -> Value {
                 let mut sqls = vec![format!("create table {tname}({cols})")];
                 let mut reopen = vec![];
                 let mut model: Vec<(i64, i64)> = vec![];
+                let mut plans: Vec<usize> = vec![]; // statement index of the EXPLAIN after a reopen (the one before it is at index - 1)
                 let mut expect: Vec<(Option<usize>, Option<usize>, usize, Vec<Vec<String>>)> = vec![]; // (op statement, deleted count, select statement, rows after)
                 for op in s {
                     let mut deleted = None;
@@ -615,7 +616,15 @@ pub fn history(depth: usize) -> Value {
                             deleted = Some(before - model.len());
                             Some(sqls.len() - 1)
                         }
-                        Op::Reopen => { reopen.push(sqls.len()); None }
+                        Op::Reopen => {
+                            // the table's definition must survive too: the plan of a key-range, key-ordered query is the same
+                            // before and after the reopen (it depends on the PRIMARY KEY flag of the column)
+                            sqls.push(format!("explain select k, v from {tname} where k >= 3 order by k"));
+                            reopen.push(sqls.len());
+                            sqls.push(format!("explain select k, v from {tname} where k >= 3 order by k"));
+                            plans.push(sqls.len() - 1);
+                            None
+                        }
                     };
                     sqls.push(format!("select k, v from {tname}"));
                     expect.push((op_idx, deleted, sqls.len() - 1, sorted(model.iter().map(|(k, v)| vec![k.to_string(), v.to_string()]).collect())));
@@ -624,6 +633,10 @@ pub fn history(depth: usize) -> Value {
                 tried += sqls.len() as u64;
                 let outs = match run(e, &sqls, &reopen) { Ok(o) => o, Err(err) => return found_raw(tried, e, &sqls, &reopen, sqls.len() - 1, "the session (with its reopen steps) to run".into(), err) };
                 for (i, o) in outs.iter().enumerate() { if let Err(err) = o { if let Some(v) = found(tried, e, &sqls, &reopen, i, "statement to succeed".into(), err.clone()) { return v; } } }
+                for pi in &plans {
+                    let (before, after) = (outs[*pi - 1].clone().unwrap(), outs[*pi].clone().unwrap());
+                    if before != after { if let Some(v) = found(tried, e, &sqls, &reopen, *pi, format!("the same plan as before the reopen: {before:?}"), format!("{after:?}")) { return v; } }
+                }
                 for (op_idx, deleted, sidx, rows) in &expect {
                     if let (Some(d), Some(oi)) = (deleted, op_idx) {
                         let got = outs[*oi].clone().unwrap();
